@@ -148,6 +148,11 @@ for fl in FLAVS:
             fid += 1
     add(fid, "result", fl, result="std", via="macro_rules")
     fid += 1
+# a tight memory budget for Result functions (two entries fit, a third must evict; the Result store paths are separate code)
+for fl in FLAVS:
+    for pol in (None, "lru"):
+        add(fid, "result", fl, policy=pol, mem=70, result="short")
+        fid += 1
 # an Ok that expires: Result together with ttl
 for fl in FLAVS:
     add(fid, "result", fl, ttl=2, result="short")
